@@ -231,6 +231,9 @@ def run(ctx):
         (dict(n_intf=3, workers=1, steps=7, seed=3, moves=["sh", "sh", "wf"], cap=2.5, delete_old=True), None, [0, 3, 4, 5] if quick else list(range(7))),
         (dict(n_intf=3, workers=2, steps=6, seed=5, moves=["sh", "sh", "sh"], delete_old=True, delete_old_all=True), [1, 0, 1, 0, 0, 0],
          [1, 3] if quick else list(range(6))),
+        # long enough for the directory written by the crashed (then redone) step to be deleted again
+        (dict(n_intf=3, workers=1, steps=16, seed=3, moves=["sh", "sh", "sh"], delete_old=True, delete_old_all=True), None,
+         [2, 3] if quick else [2, 3, 6, 7, 8]),
     ]
     if not quick:
         scenarios += [
